@@ -85,17 +85,23 @@ class LedgerGen:
         """one 'transaction': optional snapshot, a few reads/writes, optional revert, finalise"""
         r = self.r
         snapped = []
-        n = r.randint(1, 6)
+        nsnap = 0         # revision ids keep counting up to the next Finalise, also across reverts
+        reverted = False
+        n = r.randint(1, 8)
         for _ in range(n):
             x = r.random()
-            if x < 0.12:
+            if x < 0.16:
                 self.ops.append("snap")
-                snapped.append(len(snapped))
-                self.tags.add("snap")
-            elif x < 0.2 and snapped:
+                snapped.append(nsnap)
+                nsnap += 1
+                self.tags.add("snap:after-revert" if reverted else "snap")
+            elif x < 0.26 and snapped:
                 i = r.choice(snapped)
                 self.ops.append(f"revert {i}")
+                if snapped.index(i) != i:
+                    self.tags.add("revert:id-differs-from-position")
                 snapped = [s for s in snapped if s < i]
+                reverted = True
                 self.tags.add("revert:nested" if i > 0 else "revert")
             elif x < 0.65:
                 self.write()
